@@ -51,6 +51,8 @@ def run(chk):
              "function uses a visited mark against cyclic data, every recursive call lies after the mark on every path")
     chk.rule("DEST.sized", "every standard algorithm call that writes through an output iterator appends (back_inserter) or writes to begin() of a "
              "local container constructed with the source range's own size()")
+    chk.rule("ALLOC.owned", "every `new` kept in a local pointer is handed on (returned, stored, passed to a call - for an array the pointer itself - or deleted) or "
+             "known null on every path from the allocation to an exit of the function: no exit leaves the block owned by nobody")
     chk.rule("GUARD.unsigned-decrement", "every loop that counts an unsigned index down tests it strictly (v > e) or against a literal >= 1: it cannot step below "
              "zero and wrap")
     chk.rule("T.comparator", "LocMinSorter, IntersectListSort, HorzSegSorter are strict weak orders")
@@ -66,6 +68,8 @@ def run(chk):
         e9.rule_recursion(db, chk, cfg)
         e9.rule_dest_sized(db, chk, cfg)
         e9.rule_unsigned_decrement(db, chk, cfg)
+        if e9.rule_alloc_owned(db, chk, cfg) < 8:
+            raise AnalysisBroken("ALLOC.owned: fewer than 8 allocations into local pointers found (configuration %s)" % cfg)
         e10.rule_iter_stable(db, chk, cfg, lambda cls: e2.E2(db, chk, cfg, cls))
         # dangling OutPt / Active pointers in the sweep engine: the vectors that hold raw pointers into the output rings and the AEL
         # (horz_seg_list_, horz_join_list_, intersect_nodes_) and the owning outrec_list_ are empty whenever a public method returns -
